@@ -503,8 +503,9 @@ Proof.
         assert (r = 0) by lia. subst r. rewrite Hnro. cbn [Z.eqb negb andb].
         assert (E : (gv g <? gv g) = false) by lia. rewrite E. cbn [read_and_discard_s Z.to_nat].
         change (Z.to_nat 0) with 0%nat. cbn [read_and_discard_s]. rewrite !Z.sub_0_r.
-        rewrite Emg in *. cbn [negb andb] in *. rewrite andb_true_r.
-        apply (increment_core s pend exact st rows HI Em2 Hrows ltac:(left; assumption) Hin HltH).
+        rewrite Emg. cbn [negb andb]. rewrite andb_true_r.
+        pose proof (increment_core s pend exact st rows HI Em2 Hrows ltac:(left; assumption) Hin HltH) as HC.
+        cbv zeta in HC. rewrite Emg in HC. cbn [negb andb] in HC. exact HC.
       * (* inside a row group: its remaining rows are read first *)
         rewrite Hnro, Er. cbn [negb andb]. assert (E : (r <? gv g) = true) by lia. rewrite E.
         set (p := Z.min (gv g - r) rows).
@@ -513,8 +514,9 @@ Proof.
         { (* rows = 0 *)
           assert (rows = 0) by (unfold p in Hp0; lia). subst rows. rewrite Hp0.
           change (Z.to_nat 0) with 0%nat. cbn [read_and_discard_s]. rewrite Z.sub_0_r.
-          rewrite Emg in *. cbn [negb andb] in *. cbn [Z.eqb]. rewrite andb_true_r.
-          apply (increment_core s pend exact st 0 HI Em2 ltac:(lia) ltac:(right; lia) Hin HltH). }
+          rewrite Emg. cbn [negb andb]. cbn [Z.eqb]. rewrite andb_true_r.
+          pose proof (increment_core s pend exact st 0 HI Em2 ltac:(lia) ltac:(right; lia) Hin HltH) as HC.
+          cbv zeta in HC. rewrite Emg in HC. cbn [negb andb] in HC. exact HC. }
         destruct (rad_ok (Z.to_nat p) s pend exact st HI ltac:(lia)) as (A0 & B0).
         rewrite Z2Nat.id in A0, B0 by lia. rewrite nat_eqb_z in B0 by lia.
         assert (E0 : (p =? 0) = false) by lia. rewrite E0 in *. rewrite andb_false_r in B0.
@@ -538,7 +540,7 @@ Proof.
         pose proof (increment_core (s + p) false exact st0 (rows - p) B0 Em2 ltac:(lia) Hal0 Hin0 ltac:(lia)) as HC.
         cbv zeta in HC. rewrite Hbf0 in HC. cbn [negb andb orb] in HC.
         replace (s + p + (rows - p)) with (s + rows) in HC by lia.
-        rewrite Emg in *. cbn [negb andb] in *. rewrite !andb_false_r. cbn [andb]. exact HC.
+        rewrite Emg in HC. rewrite Emg. cbn [negb andb] in HC. cbn [negb andb]. rewrite !andb_false_r. cbn [andb]. exact HC.
     + (* no pre-read *)
       cbn [andb]. change (Z.to_nat 0) with 0%nat. cbn [read_and_discard_s]. rewrite !Z.sub_0_r. cbn [Z.eqb]. rewrite andb_true_r.
       apply (increment_core s pend exact st rows HI Em2 Hrows); auto.
